@@ -64,6 +64,20 @@ func DirtyReturns(fn *ssa.Function, set, clear func(ssa.Instruction) bool) ([]*s
 
 var bcClear func(ssa.Instruction) bool
 
+// EventValAt: the (event flag, value of the boolean SSA value watch) pairs with which probe can be reached;
+// the flag is set by `set` instructions and cleared by `clear` instructions.
+func EventValAt(fn *ssa.Function, set, clear func(ssa.Instruction) bool, probe ssa.Instruction, watch ssa.Value) (map[bcPair]bool, bool) {
+	bcClear, bcWatch, bcWatchOut = clear, watch, map[bcPair]bool{}
+	defer func() { bcClear, bcWatch, bcWatchOut = nil, nil, nil }()
+	_, _, ok := boolCorrEx(fn, -1, set, nil, probe)
+	return bcWatchOut, ok
+}
+
+var (
+	bcWatch    ssa.Value
+	bcWatchOut map[bcPair]bool
+)
+
 func boolCorrEx(fn *ssa.Function, idx int, must, may func(ssa.Instruction) bool, probe ssa.Instruction) (map[bcPair]bool, map[bool]bool, bool) {
 	// tracked values
 	tracked := map[ssa.Value]int{}
@@ -97,6 +111,9 @@ func boolCorrEx(fn *ssa.Function, idx int, must, may func(ssa.Instruction) bool,
 	}
 	isBool := func(v ssa.Value) bool {
 		return types.Identical(v.Type().Underlying(), types.Typ[types.Bool])
+	}
+	if bcWatch != nil {
+		add(bcWatch)
 	}
 	for _, ret := range Returns(fn) {
 		if idx < 0 {
@@ -172,6 +189,11 @@ func boolCorrEx(fn *ssa.Function, idx int, must, may func(ssa.Instruction) bool,
 			if probe != nil && ins == probe {
 				for s := range cur {
 					at[s.e] = true
+					if bcWatch != nil {
+						for _, v := range get(s, bcWatch) {
+							bcWatchOut[bcPair{s.e, v}] = true
+						}
+					}
 				}
 			}
 			next := map[bcState]bool{}
